@@ -26,8 +26,40 @@ def gen_cases(tier, rng):
     return cases
 
 
+
+def gen_seek_l0(tier, rng):
+    """a seek-triggered compaction of a level-0 file that overlaps an OLDER level-0 file: a wide
+    table at level 2, disjoint tables at level 1, an older wide level-0 table and a newer narrow
+    one holding the newest value of a key; 100+ lookups of an absent key inside the narrow range
+    exhaust the newer file's seek allowance. The compaction has to take both level-0 files (or the
+    older one keeps shadowing what was pushed down)."""
+    cases = []
+    n = 6 if tier == "quick" else 200
+    fl = "Cxfe:xff"
+    for i in range(n):
+        ks = sorted(rng.sample(range(0x62, 0x7a), 9))      # b..y
+        lo, hi = 0x61, 0x7a
+        k = lambda c: "x%02x" % c
+        v = lambda: "x%02x%02x" % (rng.randrange(256), rng.randrange(256))
+        toks = ["q%d" % i, "%d:%d:4096:%d" % (1 << 20, 1 << 20, rng.randrange(2))]
+        toks += ["P%s=%s" % (k(lo), v()), "P%s=%s" % (k(hi), v()), fl]
+        # level 1: three disjoint tables
+        for a, b in ((lo, ks[0]), (ks[3], ks[5]), (ks[8], hi)):
+            toks += ["P%s=%s" % (k(a), v()), "P%s=%s" % (k(b), v()), fl]
+        # older level-0 table: wide, with the old value of the hot key
+        hot = ks[4]
+        toks += ["P%s=%s" % (k(lo), v()), "P%s=%s" % (k(hot), v()), "P%s=%s" % (k(hi), v()), fl]
+        # newer level-0 table: narrow, new value of the hot key (sometimes a deletion)
+        toks += ["P%s=%s" % (k(ks[3]), v()), ("D%s" % k(hot)) if rng.random() < 0.3 else "P%s=%s" % (k(hot), v()),
+                 "P%s=%s" % (k(ks[5]), v()), fl]
+        probe = "x%02x%02x" % (ks[3], 0x6d)               # absent, inside the narrow range
+        toks += ["G" + probe] * rng.choice([110, 150])
+        toks += ["W", "W"] + ["G" + k(c) for c in [lo, hi, hot] + ks] + ["A"]
+        cases.append(" ".join(toks))
+    return cases
+
 def suites(tier, seed, rng):
-    return [dbh.DbSuite(dbh.corpus("C01") + gen_cases(tier, rng)),
+    return [dbh.DbSuite(dbh.corpus("C01") + gen_cases(tier, rng) + gen_seek_l0(tier, rng) + dbh.gen_reuse_boundary(tier, rng)),
             vfn.VfnSuite("vfn", vfn.gen(tier, rng, {"ffub", "plmo"}), lambda i, s, c: True),
             cache.CacheSuite(cache.gen_cases(tier, rng))]
 
